@@ -49,6 +49,51 @@ theorem C18_exit_iff (r : Run) (o : Outcome) (h : runCli r = some o) :
       simp [outcomeOf, this]
     | some e => simp [outcomeOf]
 
+/-- exit code 0 exactly when the stage results contain no fault that the requested commands look at: a usable
+    command list (`check` or `generate` first, then only `generate`), every file parses, `check_impl` reports
+    nothing, and — if `generate` is requested — usable options, no printer error, no file-system failure -/
+theorem C18_exit_iff_faults (r : Run) (o : Outcome) (h : runCli r = some o) : o.exit = 0 ↔ Clean r := by
+  obtain ⟨o', h', sh⟩ := runCli_shape r
+  rw [h] at h'; cases h'
+  cases sh with
+  | noCommand h0 ho =>
+    subst ho
+    simp [outcomeOf, Clean, h0, cmdsOk]
+  | schemaParse _ he ho =>
+    subst ho
+    have : ¬ Clean r := fun c => he ((parseErrs_nil_iff _ _ _ _).mpr c.2.1)
+    simp [outcomeOf, this]
+  | opParse _ _ he ho =>
+    subst ho
+    have : ¬ Clean r := by
+      intro c
+      refine he ((parseErrs_nil_iff _ _ _ _).mpr ?_)
+      intro p hp
+      obtain ⟨f, hf, rfl⟩ := List.mem_map.mp hp
+      exact c.2.2.1 f hf
+    simp [outcomeOf, this]
+  | commands hc hs hp ho =>
+    subst ho
+    have hk := runCommands_init_ok r r.cmds
+    have hs' := (parseErrs_nil_iff _ _ _ _).mp hs
+    have hp' : ∀ f ∈ r.opFiles, f.parse = .ok := by
+      intro f hf
+      exact (parseErrs_nil_iff _ _ _ _).mp hp f.parse (List.mem_map.mpr ⟨f, hf, rfl⟩)
+    have hex : (outcomeOf (runCommands r r.cmds St.init).1 (runCommands r r.cmds St.init).2
+        ⟨r.schemaFiles.length, r.opFiles.length⟩).exit = 0 ↔ (runCommands r r.cmds St.init).2 = none := by
+      cases (runCommands r r.cmds St.init).2 <;> simp [outcomeOf]
+    rw [hex, hk]
+    constructor
+    · rintro (h0 | ⟨h1, h2, h3⟩)
+      · exact absurd h0 hc
+      · exact ⟨h1, hs', hp', h2, h3⟩
+    · intro c
+      exact Or.inr ⟨c.1, c.2.2.2.1, c.2.2.2.2⟩
+
+example : Clean ⟨[.check, .generate], [.ok], none, [], [⟨.ok, none, none, [], .ok⟩],
+    ⟨true, false, false, true, true, .withLoaderTs50⟩, false, .ok, .ok, .ok⟩ :=
+  ⟨by decide, by decide, by decide, by decide, by decide⟩
+
 /-- a diagnostic always comes with exit code 1 -/
 theorem C18_diag_exit_1 (r : Run) (o : Outcome) (h : runCli r = some o) (hd : o.diags ≠ []) : o.exit = 1 := by
   rcases C18_exit_01 r o h with h0 | h1
@@ -445,7 +490,7 @@ example : ∃ (src : List Char) (p : Pos) (l : List Char) (c : Char),
 OPEN — carried by K/O only
 * exit = 0 ↔ "no fault was injected" at the level of the INPUT TEXTS (the property's first sentence) needs the
   parser and the checkers; here it is the O clause `exit-iff` on the real binary.  At the level of stage results
-  it is `C18_exit_iff` + `C18_diags_are_check_result`.
+  it is `C18_exit_iff_faults`.
 * "line/column at the start of a token": inherited from C07 (node positions are token starts); here it is the
   O clause `located:not-token-start` with an independent lexer.
 * one well-formed JSON document on stdout; stdout/stderr separation; what the file system really contains after
